@@ -270,8 +270,14 @@ func calculateSystemConfigMerged(oldCfg configuration.SystemCfg, configMap *core
 		// merge with clusterStrategy
 		clusterCfgCopy := mergedCfg.ClusterStrategy.DeepCopy()
 		if nodeStrategy.SystemStrategy != nil {
+			clusterBandwidth := clusterCfgCopy.TotalNetworkBandwidth.DeepCopy()
 			mergedStrategyInterface, _ := util.MergeCfg(clusterCfgCopy, nodeStrategy.SystemStrategy)
 			mergedCfg.NodeStrategies[index].SystemStrategy = mergedStrategyInterface.(*slov1alpha1.SystemStrategy)
+			// a Quantity is never omitted by omitempty: a node strategy that does not set the bandwidth would
+			// overlay "0" onto the cluster value
+			if nodeStrategy.SystemStrategy.TotalNetworkBandwidth.IsZero() {
+				mergedCfg.NodeStrategies[index].SystemStrategy.TotalNetworkBandwidth = clusterBandwidth
+			}
 		} else {
 			mergedCfg.NodeStrategies[index].SystemStrategy = clusterCfgCopy
 		}
